@@ -244,6 +244,7 @@ func checkC08(c *Ctx) {
 			c.Sample(obj{"source": srcs[i]})
 		}
 	})
+	c08Retry(c, srcs, names)
 	// (3) the 13 slots and the collapsed identifier, for the specification (hooks are process-wide:
 	// recorded one file at a time, with no other decoration running)
 	for _, s := range srcs {
@@ -471,4 +472,53 @@ func exactImportNames(src []byte) (map[string]string, bool) {
 		names[p] = found
 	}
 	return names, true
+}
+
+// c08Retry: a first decoration fails because the name resolver behind the syntax-based resolver does not
+// know one package yet; the package is added and the SAME parsed file is decorated again through the
+// SAME resolver (fresh Decorator). The unedited restore is then the source, as after a clean first run.
+func c08Retry(c *Ctx, srcs []string, names map[string]string) {
+	n := 0
+	for _, src := range srcs {
+		if n >= 40 {
+			break
+		}
+		for _, missing := range []string{"example.com/lib/a", "other.io/q"} {
+			if !strings.Contains(src, "\""+missing+"\"") {
+				continue
+			}
+			n++
+			key := "retry-after-refusal|" + shortHash(src) + "|" + missing
+			c.Eval(key, true)
+			partial := map[string]string{}
+			for k, v := range names {
+				if k != missing {
+					partial[k] = v
+				}
+			}
+			dr := goast.WithResolver(simple.New(partial))
+			fset := token.NewFileSet()
+			af, err := parser.ParseFile(fset, "x.go", src, parser.ParseComments)
+			if err != nil {
+				continue
+			}
+			if _, err := decorator.NewDecoratorWithImports(fset, "example.com/app", dr).DecorateFile(af); err == nil {
+				continue // the package is not asked about (aliased everywhere): no refusal to retry after
+			}
+			partial[missing] = names[missing]
+			var df *dst.File
+			var derr error
+			if msg := guard(func() { df, derr = decorator.NewDecoratorWithImports(fset, "example.com/app", dr).DecorateFile(af) }); msg != "" || derr != nil {
+				c.Fail(Finding{Sig: "retry-decorate-fails", Input: key, What: fmt.Sprintf("%s %v", msg, derr), Replay: obj{"kind": "none"}})
+				continue
+			}
+			var buf bytes.Buffer
+			if err := decorator.NewRestorerWithImports("example.com/app", simple.New(names)).Fprint(&buf, df); err != nil {
+				c.Fail(Finding{Sig: "transparent-restore-error", Input: key, What: err.Error(), Replay: obj{"kind": "none"}})
+			} else if buf.String() != src {
+				c.Fail(Finding{Sig: "transparent-bytes-differ", Input: key, What: "decorated again after a refused first attempt: " + diffAt([]byte(src), buf.Bytes()), Replay: obj{"kind": "none"}})
+			}
+		}
+	}
+	c.Set("retried_decorations", n)
 }
